@@ -711,7 +711,9 @@ class DataIndex(BaseDataIndex, MutableMapping[DataIndexKey, DataIndexEntry]):
             return
 
         entry.loaded = True
-        del self._trie[key]
+        # NOTE: overwrite in place. Deleting the node first would prune it when
+        # the directory turned out to be empty, which breaks (or repeats) an
+        # iteration that is in progress over its siblings.
         self._trie[key] = entry
         self._trie.commit()
 
